@@ -1,9 +1,15 @@
 (* C10 proofs, part 1: first-level encoding (name.go) against RFC 1001 14.1. *)
 From Coq Require Import List Arith NArith Lia Bool.
 From Coq Require Import ZifyN ZifyNat ZifyBool.
-From Mant Require Import Prim.R Prim.Bytes Model.NbName Spec.C10.
+From Mant Require Import Prim.R Prim.Bytes Gen.ConstsC10 Model.NbName Spec.C10.
 Import ListNotations.
 Open Scope N_scope.
+
+(* the constants of name.go, as read from the source by go2coq on this run, are the RFC's:
+   16-byte names, 32 characters, 'A' *)
+Lemma source_constants :
+  c10_NetBIOSNameLength = 16 /\ c10_EncodedNameLength = 32 /\ c10_ASCII_A = 65.
+Proof. repeat split; reflexivity. Qed.
 
 (* ------------------------------------------------------------------ all 256 byte values *)
 
@@ -291,7 +297,7 @@ Qed.
 
 Lemma validate_true name scope : name_ok name -> scope_ok scope -> validate (mk_nbname name scope) = true.
 Proof.
-  intros (Hwf & Hlen & Hstar) Hscope. unfold validate. cbn [nb_name nb_scope].
+  intros (Hwf & Hlen & Hstar) Hscope. unfold validate, c10_NetBIOSNameLength. cbn [nb_name nb_scope].
   destruct (N.ltb_spec 16 (lenN name)); [unfold lenN in *; lia|].
   destruct (N.eqb_spec (hd 0 name) 42); [contradiction|].
   destruct scope as [|c r]; [reflexivity|]. cbn [is_nil negb].
@@ -318,7 +324,7 @@ Theorem first_level_decode_rfc name scope :
   wf_bytes name -> (length name <= 16)%nat ->
   first_level_decode (rfc1001_encode name scope) = Ok (mk_nbname (strip_padding name) scope).
 Proof.
-  intros Hwf Hlen. unfold first_level_decode, rfc1001_encode.
+  intros Hwf Hlen. unfold first_level_decode, rfc1001_encode, c10_EncodedNameLength.
   pose proof (wf_nb_pad name Hwf) as Hwfp.
   pose proof (encoded_no_dot _ Hwfp) as Hnd.
   assert (Hl : lenN (flat_map half_ascii (nb_pad name)) = 32).
@@ -385,7 +391,7 @@ Qed.
 
 Theorem first_level_decode_total s : first_level_decode s <> Panic.
 Proof.
-  unfold first_level_decode. destruct (split_first_dot s) as [enc rest].
+  unfold first_level_decode, c10_EncodedNameLength. destruct (split_first_dot s) as [enc rest].
   destruct (N.eqb_spec (lenN enc) 32) as [E|E]; cbn [negb]; [|discriminate].
   assert (He : Nat.even (length enc) = true).
   { unfold lenN in E. replace (length enc) with 32%nat by lia. reflexivity. }
@@ -402,7 +408,7 @@ Theorem first_level_decode_strict s : wf_bytes s ->
   | None => first_level_decode s = Err
   end.
 Proof.
-  intros Hwf. unfold first_level_decode.
+  intros Hwf. unfold first_level_decode, c10_EncodedNameLength.
   assert (Hwf_enc : wf_bytes (fst (split_first_dot s))).
   { clear -Hwf. induction Hwf as [|c r Hc Hr IH]; [constructor|].
     cbn [split_first_dot]. destruct (c =? dot); [constructor|].
